@@ -61,6 +61,12 @@ func decoderFor(format string) yqlib.Decoder {
 		p := yqlib.NewDefaultYamlPreferences()
 		p.LeadingContentPreProcessing = false
 		return yqlib.NewYamlDecoder(p)
+	case "goccy":
+		return yqlib.NewGoccyYAMLDecoder()
+	case "csv-auto":
+		p := yqlib.ConfiguredCsvPreferences
+		p.AutoParse = true
+		return yqlib.NewCSVObjectDecoder(p)
 	case "json":
 		return yqlib.NewJSONDecoder()
 	case "props":
